@@ -579,7 +579,12 @@ pub fn c10_roundtrip(w: &mut World, cx: &mut Cx, rng: &mut Rng) {
             cx.count("c10_positive_within_or_beyond_slack");
         }
         if profit > slack {
-            let asym = w.info.impact_cap_asymmetry;
+            // Class: positive impact cap above negative impact cap; the gain is then bounded by
+            // (max_positive_factor - max_negative_factor) * size.
+            let pp = &w.market.config.position_params;
+            let gap = bi(*pp.max_positive_position_impact_factor()) - bi(*pp.max_negative_position_impact_factor());
+            let asym = w.info.impact_cap_asymmetry
+                && profit <= oracle::apply_factor(&bi(opened.size_in_usd), &gap) + &slack;
             let sig = if asym {
                 "C10:roundtrip:profit_with_positive_impact_cap_above_negative_cap"
             } else {
